@@ -122,6 +122,17 @@ Theorem no_marker_survives : forall tbl t d tail c x,
 Proof. exact no_marker_survives_lemma. Qed.
 Print Assumptions no_marker_survives.
 
+(* No placeholder survives the substitution, however many data-djc-id attributes the HTML
+   post-processing added to it (the repaired defect 59fa6d8), for every surrounding text free of "_PLACEHOLDER". *)
+Theorem placeholders_all_replaced : forall k css ids slash pre post js_b css_b,
+  forallb is_word6 (match css with Some c => c :: ids | None => ids end) = true ->
+  ph_clean pre -> ph_clean post ->
+  subst_placeholders (pre ++ emit_placeholder k css ids slash ++ post) js_b css_b =
+  (pre ++ (match k with KJs => js_b | KCss => css_b end) ++ post,
+   match k with KJs => true | KCss => false end, match k with KJs => false | KCss => true end).
+Proof. exact placeholder_replaced_lemma. Qed.
+Print Assumptions placeholders_all_replaced.
+
 (* ---------- non-vacuity ---------- *)
 Definition ex_hash1 : str := class_hash [1050; 1085; 1086; 1087; 1082; 1072] [49; 99; 51; 53; 100; 51].  (* Кнопка_1c35d3 *)
 Definition ex_hash2 : str := class_hash [65] [48; 48; 97; 98; 99; 100].
@@ -152,3 +163,11 @@ Example placeholder_three_ids :
   subst_placeholders (emit_placeholder KCss None [[97;48;48;48;48;49]; [97;48;48;48;48;50]; [97;48;48;48;48;51]] false) [74] [67]
   = ([67], false, true).
 Proof. vm_compute. reflexivity. Qed.
+
+Example placeholder_hypotheses_satisfiable :
+  forallb is_word6 [[48;97;49;98;50;99]; [97;48;48;48;48;49]; [97;48;48;48;48;50]] = true /\
+  ph_clean [60;104;101;97;100;62] /\ ph_clean [60;47;104;101;97;100;62] /\
+  subst_placeholders ([60;104;101;97;100;62] ++ emit_placeholder KJs (Some [48;97;49;98;50;99]) [[97;48;48;48;48;49]; [97;48;48;48;48;50]] false
+                      ++ [60;47;104;101;97;100;62]) [74] [67]
+  = ([60;104;101;97;100;62] ++ [74] ++ [60;47;104;101;97;100;62], true, false).
+Proof. repeat split; vm_compute; reflexivity. Qed.
